@@ -251,28 +251,26 @@ def resetDepth (w : W) : W := { w with mehDepth := 0 }
     `in_error = 1; in_mudlib_error_handler = 0; heart beat shut-off; in_error = 0;` (then longjmp) -/
 def errExit (w : W) : W := setErr (hbOff (setMeh (setErr w true) false)) false
 
-/-- the LPC handler of behaviour `recurse`: `catch (error ("mehinner"))` (FRAME_CATCH branch with
-    in_mudlib_error_handler = 1: print, flag := 0, longjmp to the catch), then `error ("mehagain")`: uncaught,
-    in_error = 1, in_mudlib_error_handler was 0 -> := 1, in_error = 0, and the master's handler is entered again -/
-def reenter (w : W) : W := setErr (setMeh (setErr (setMeh (bumpDepth w) false) true) true) false
-
 /-- mudlib_error_handler + the verification master's error_handler(): reports, then behaves per `meh`.
     Returns `true` when the handler itself raised (control has left through a nested error_handler/longjmp).
-    `fuel` bounds the re-entries of the `recurse` behaviour (the LPC handler stops after two re-entries). -/
+    Behaviour `recurse` (LPC): `catch (error ("mehinner"))`, then `error ("mehagain")`.  The caught error is delivered
+    to the catch's own context, which is not `mudlib_error_handler_context`: in_mudlib_error_handler STAYS set and the
+    handler goes on (C05's fix; before, the flag was cleared and the second error re-entered the handler).  The second
+    error reaches error_handler() with the flag still set and is delivered to the context the handler was entered
+    with: "error in mudlib error handler", flag := 0, no second report - the same exit as behaviour `raise`.  The LPC
+    handler counts its calls (`mehDepth`): every third call returns normally.
+    `fuel` is kept for the signature of the lemmas (nothing recurses any more). -/
 def callMasterHandler : Nat → W → String → W × Bool
   | 0, w, msg => (emit w (.meh false msg), false)
-  | fuel + 1, w, msg =>
+  | _ + 1, w, msg =>
     match w.meh with
     | .ok => (emit w (.meh false msg), false)
     | .raise =>
       -- error("mehfail") inside the handler: nested error_handler with in_mudlib_error_handler = 1
       (errExit (emit w (.meh false msg)), true)
     | .recurse =>
-      if w.mehDepth < 2 then
-        let r := callMasterHandler fuel (reenter (emit w (.meh false msg))) "mehagain"
-        if r.2 then (r.1, true) else (errExit r.1, true)
-      else
-        (resetDepth (emit w (.meh false msg)), false)
+      if w.mehDepth < 2 then (errExit (bumpDepth (emit w (.meh false msg))), true)
+      else (resetDepth (emit w (.meh false msg)), false)
 
 /-- error_handler() for an error outside any catch: everything up to (not including) the longjmp -/
 def errorHandler (w : W) (msg : String) : W :=
@@ -289,7 +287,8 @@ def errorHandler (w : W) (msg : String) : W :=
 
 /-- error_handler() for an error inside catch() (LOG_CATCHES): reported with caught = 1, then longjmp to the catch -/
 def caughtError (w : W) (msg : String) : W :=
-  if w.inMeh then { w with inMeh := false }
+  -- inside the master's handler: only logged; the catch's context is not the handler's entry context, the flag stays
+  if w.inMeh then w
   else
     let w := { w with inMeh := true }
     let w := emit w (.meh true msg)
